@@ -76,6 +76,11 @@ func TestCheck(t *testing.T) {
 		rt.Case()
 		kind := limgen.Kinds[r.IntN(4)]
 		spec := limgen.Gen(r, kind, limgen.Opts{NoProbe: true})
+		spec.Debug = r.IntN(5) == 0 // a debug-enabled logger must not change behaviour
+		if kind != "aimd" && r.IntN(12) == 0 {
+			spec.Smoothing = []float64{1.5, 2.5, -1, 1.0000001}[r.IntN(4)] // out of range: the constructors fall back to their documented default
+			rt.Count("cases_with_out_of_range_smoothing", 1)
+		}
 		if kind == "vegas" && r.IntN(4) == 0 {
 			spec.Funcs = limgen.VegasFuncs[r.IntN(len(limgen.VegasFuncs))] // caller-supplied step / threshold functions
 			rt.Count("vegas_cases_with_caller_supplied_functions", 1)
